@@ -76,7 +76,7 @@ CHECKS = {
              "window / aggregate operators with empty or duplicated context lists, unordered slices below subqueries) is built on the same dialects; "
              "SQLAlchemy's renderer is not modelled.",
         design_ref="DESIGN.md section 5, C19",
-        note=NOTE_COMMON + "DuckDB / DB2 classes only when importable. Known findings D44, D49, D53 are matched by trigger predicates, D69, D70, D72 by grid case and exception class.",
+        note=NOTE_COMMON + "DuckDB / DB2 classes only when importable. Known findings D44, D49 are matched by trigger predicates, D69, D70, D72 by grid case and exception class.",
     ),
     "C18": dict(
         technique="Lean 4 proof: round-trip and non-interference theorems for a model of SQL string-literal rendering/lexing and of LIKE with "
